@@ -216,6 +216,10 @@ package scheduler
 //@   requires s != nil && s.taskRunner != nil
 //@   modifies *
 //@   ensures #C12.flag-raised s.cancelled == 1
+// C03: Cancel is also called from INSIDE a stage goroutine (a nested run whose stage condition cannot be
+// evaluated cancels the whole scheduler): it must wait for nothing but the runner's own Cancel — waiting
+// for the scheduler's stage goroutines from one of them never ends
+//@   effect no awaits-task except Cancel
 
 //@ func NewExecutionGraph
 //@   requires forall i int :: 0 <= i && i < len(stages) ==> stages[i] != nil
